@@ -513,6 +513,20 @@ def run(repo, rep, tier):
                     out.append((spec, 0))
             if isinstance(x, ast.Call) and dotted(x.func) == 'repr':
                 out.append(('repr', 17))
+            if isinstance(x, ast.Call) and dotted(x.func) == 'format' and \
+                    len(x.args) == 2:
+                # format(x, SPEC) with a constant spec (constant fields
+                # nested in an f-string included)
+                sp = x.args[1]
+                vals_ = sp.values if isinstance(sp, ast.JoinedStr) else [sp]
+                spec = ''.join(
+                    str(v.value) if isinstance(v, ast.Constant) else
+                    str(v.value.value) if isinstance(v, ast.FormattedValue)
+                    and isinstance(v.value, ast.Constant) else '?'
+                    for v in vals_)
+                m = re.match(r'^\.(\d+)([GgEe])$', spec)
+                out.append((spec, (int(m.group(1)) + (
+                    1 if m.group(2) in 'eE' else 0)) if m else 0))
             if isinstance(x, ast.BinOp) and isinstance(x.op, ast.Mod) and \
                     const_str(x.left):
                 m = re.search(r'%\.(\d+)([GgEe])', const_str(x.left))
